@@ -283,3 +283,5 @@ HARNESSES += [
 
 from engine.harness import borrowed  # noqa: E402
 HARNESSES.append(borrowed("c12", "H12-consume-mem", "H19h-consumer-expiry"))   # the consumer's expiry decision is "now > timestamp + ttl" at the moment of delivery
+HARNESSES.append(borrowed("c15", "H15-redis-past-due", "H19i-redis-past-anchor"))   # a time base that is already over schedules nothing in the past
+HARNESSES.append(borrowed("c12", "H12-step", "H19j-expiry-after-retry"))           # a retried message expires at the same instant as its job
